@@ -10,6 +10,7 @@ import (
 	"context"
 	"encoding/json"
 	"fmt"
+	"strings"
 	"testing"
 	"time"
 
@@ -352,6 +353,13 @@ func runChain(r *report.Run, cc *sim.ChainCase) *report.Failure {
 			continue
 		}
 		if res.BuildErr != nil || res.RefErr != nil || res.LibErr != nil || res.SlotsErr != nil || res.Diff != "" || res.SlotsDiff != "" {
+			// A state divergence is C01/C02's subject — except when what differs IS an assignment: the sync
+			// committees live in the state (they are computed at rotations and carried through upgrades).
+			for _, d := range []string{res.SlotsDiff, res.Diff} {
+				if strings.Contains(d, "_sync_committee") {
+					return report.Failf("sync/state-differs", "slot %d: the state's sync committees differ from the specification's (library != reference): %s", slot, truncS(d, 700))
+				}
+			}
 			r.Class("discarded_other_property(C01/C02)")
 			return nil
 		}
@@ -381,6 +389,13 @@ func runChain(r *report.Run, cc *sim.ChainCase) *report.Failure {
 		}
 	}
 	return nil
+}
+
+func truncS(s string, n int) string {
+	if len(s) > n {
+		return s[:n] + "…"
+	}
+	return s
 }
 
 func genSynthetic(t *rapid.T) *Case {
@@ -478,6 +493,17 @@ func TestCheck(t *testing.T) {
 	if !r.Search(t, "synthetic", 0, r.N(1500, 18000), func(rt *rapid.T) (any, *report.Failure) {
 		c := genSynthetic(rt)
 		return c, runSynthetic(r, c)
+	}) {
+		return
+	}
+	// tour: every upgrade after Altair taken while current and next sync committee differ
+	ntour := 2
+	if r.Thorough() {
+		ntour = 24
+	}
+	if !r.Search(t, "tour-upgrades-after-sync-rotation", 101, ntour, func(rt *rapid.T) (any, *report.Failure) {
+		cc := sim.TourUpgradesAfterSyncRotation(rt)
+		return cc, runChain(r, cc)
 	}) {
 		return
 	}
